@@ -66,19 +66,19 @@ func verifLemmaOneZeroOne(p int) int { return ZeroToOne(OneToZero(p)) }
 //@ func BasePositionOf
 //@   property C20
 //@   pure
-//@   requires f != nil && depth(f) < 1000
+//@   requires f != nil && depth(f) <= 1000
 //@   ensures [position] result0 == position + sumStart(f)
 //@   ensures [base]     result1 == baseOf(f)
 //@   loop 1 invariant 0 <= n && f != nil && depth(f) + n == depth(old(f))
 //@   loop 1 invariant position + sumStart(f) == old(position) + sumStart(old(f))
 //@   loop 1 invariant baseOf(f) == baseOf(old(f))
-//@   loop 1 decreases 1000 - n
+//@   loop 1 decreases 1002 - n
 
 // Additivity: mapping through a feature equals mapping through its location after adding the feature's start.
 //@ func verifLemmaBasePositionAdditive
 //@   property C20
 //@   lemma
-//@   requires f != nil && depth(f) < 1000 && locOf(f) != nil
+//@   requires f != nil && depth(f) <= 1000 && locOf(f) != nil
 //@   ensures  p1 == p2 && b1 == b2
 func verifLemmaBasePositionAdditive(f Feature, p int) (p1 int, b1 Feature, p2 int, b2 Feature) {
 	p1, b1 = BasePositionOf(f, p)
@@ -95,19 +95,19 @@ func verifLemmaBasePositionAdditive(f Feature, p int) (p1 int, b1 Feature, p2 in
 //@ func PositionWithin
 //@   property C20
 //@   pure
-//@   requires f != nil && depth(f) < 1000
+//@   requires f != nil && depth(f) <= 1000
 //@   ensures [ok]   ok == within(f, ref)
 //@   ensures [pos]  ok ==> pos == position + sumTo(f, ref)
 //@   ensures [none] !ok ==> pos == 0
 //@   loop 1 invariant 0 <= n && f != nil && depth(f) + n == depth(old(f))
 //@   loop 1 invariant within(f, ref) == within(old(f), ref)
 //@   loop 1 invariant within(f, ref) ==> position + sumTo(f, ref) == old(position) + sumTo(old(f), ref)
-//@   loop 1 decreases 1000 - n
+//@   loop 1 decreases 1002 - n
 
 //@ func verifLemmaPositionWithinAdditive
 //@   property C20
 //@   lemma
-//@   requires f != nil && depth(f) < 1000 && locOf(f) != nil && f != ref
+//@   requires f != nil && depth(f) <= 1000 && locOf(f) != nil && f != ref
 //@   ensures  ok1 == ok2 && (ok1 ==> p1 == p2)
 func verifLemmaPositionWithinAdditive(f, ref Feature, p int) (p1 int, ok1 bool, p2 int, ok2 bool) {
 	p1, ok1 = PositionWithin(f, ref, p)
@@ -130,16 +130,16 @@ func verifLemmaPositionWithinAdditive(f, ref Feature, p int) (p1 int, ok1 bool, 
 //@ func BaseOrientationOf
 //@   property C20
 //@   pure
-//@   requires f != nil && depth(f) < 1000
+//@   requires f != nil && depth(f) <= 1000
 //@   ensures [ori]     orientable(f) ==> ori == prodOri(f) && ref == refB(f)
 //@   ensures [not-ori] !orientable(f) ==> ori == 0 && ref == refA(f)
 //@   loop 1 invariant 0 <= n && f != nil && depth(f) + n == depth(old(f))
 //@   loop 1 invariant !orientable(old(f)) && refA(f) == refA(old(f))
-//@   loop 1 decreases 1000 - n
+//@   loop 1 decreases 1002 - n
 //@   loop 2 invariant 0 <= n && f != nil && depth(f) + n == depth(old(f))
 //@   loop 2 invariant orientable(old(f)) && orientable(f) && o == f
 //@   loop 2 invariant (ori == 1 || ori == -1) && ori * prodOri(f) == prodOri(old(f)) && refB(f) == refB(old(f))
-//@   loop 2 decreases 1000 - n
+//@   loop 2 decreases 1002 - n
 
 // baseOriOf(f): the orientation BaseOrientationOf reports (0 when f is not orientable).
 //@ spec baseOriOf(f Feature) Orientation = orientable(f) ? prodOri(f) : 0
@@ -148,7 +148,7 @@ func verifLemmaPositionWithinAdditive(f, ref Feature, p int) (p1 int, ok1 bool, 
 //@ func verifLemmaBaseOrientationMultiplicative
 //@   property C20
 //@   lemma
-//@   requires f != nil && depth(f) < 1000 && orientable(f) && orientable(locOf(f))
+//@   requires f != nil && depth(f) <= 1000 && orientable(f) && orientable(locOf(f))
 //@   ensures  o1 == oriOf(f) * o2 && r1 == r2
 func verifLemmaBaseOrientationMultiplicative(f Feature) (o1 Orientation, r1 Feature, o2 Orientation, r2 Feature) {
 	o1, r1 = BaseOrientationOf(f)
@@ -166,14 +166,14 @@ func verifLemmaBaseOrientationMultiplicative(f Feature) (o1 Orientation, r1 Feat
 //@ func OrientationWithin
 //@   property C20
 //@   pure
-//@   requires f != nil && depth(f) < 999
+//@   requires f != nil && depth(f) <= 1000
 //@   ensures [nil-ref] ref == nil ==> result == 0
 //@   ensures [ori]     ref != nil ==> result == oriTo(f, ref)
 //@   loop 1 invariant 0 <= n && ref != nil && (f == nil || depth(f) + n == depth(old(f))) && (f == nil ==> n > 0 && n <= depth(old(f)) + 1)
 //@   loop 1 invariant (ori == 1 || ori == -1)
 //@   loop 1 invariant f != nil ==> ori * oriTo(f, ref) == oriTo(old(f), ref)
 //@   loop 1 invariant f == nil ==> oriTo(old(f), ref) == 0
-//@   loop 1 decreases 1000 - n
+//@   loop 1 decreases 1002 - n
 
 // ParseMoltype: a map lookup (maps are outside the verified subset); total, no effects.
 //@ func ParseMoltype
